@@ -56,7 +56,9 @@ pub fn check(sc: &Scenario, res: &RunResult) -> Vec<Violation> {
     }
     // application regions: exactly (ptr, len) when wholly readable
     for (ptr, len) in &opts.app_memory {
-        let readable = k.accessible_run(*ptr, *len, false) == *len;
+        // wholly inside the target's memory (pages the target cannot read itself included: the writer
+        // reaches them through /proc/pid/mem and ptrace)
+        let readable = k.accessible_run(*ptr, *len, true) == *len;
         if !readable {
             continue;
         }
